@@ -878,6 +878,23 @@ pub fn breakeven_trees() -> Vec<T> {
             }
         }
     }
+    // sign twins: a canonical positive integer with its leading 0x00 and the same bytes without it (a
+    // negative number), zero-extended and sign-extended spellings — as repeated atoms and inside otherwise
+    // identical sub-trees. Whatever identifies sub-trees (hashes, keys) must tell them apart.
+    for body in [vec![0x80u8], vec![0x80, 0x00], vec![0x80, 0x00, 0x00], vec![0xff, 0xff], vec![0xc3, 0x50, 0x11], vec![0x80, 0, 0, 0, 0, 0, 0, 1]] {
+        let mut pos = vec![0u8];
+        pos.extend_from_slice(&body);
+        let mut neg = vec![0xffu8];
+        neg.extend_from_slice(&body);
+        for (a, b) in [(pos.clone(), body.clone()), (body.clone(), pos.clone()), (neg.clone(), body.clone()), (pos.clone(), neg.clone())] {
+            let (a, b) = (T::Atom(a), T::Atom(b));
+            let filler = T::Atom(vec![0x71, 0x72, 0x73, 0x74, 0x75]);
+            out.push(T::pair(a.clone(), b.clone()));
+            out.push(T::list(vec![a.clone(), b.clone(), a.clone(), b.clone()]));
+            out.push(T::pair(T::pair(a.clone(), filler.clone()), T::pair(b.clone(), filler.clone())));
+            out.push(T::list(vec![T::list(vec![filler.clone(), a.clone()]), T::list(vec![filler.clone(), b.clone()]), T::list(vec![filler.clone(), a.clone()])]));
+        }
+    }
     out
 }
 
